@@ -1,8 +1,104 @@
-"""cnvlib/coverage.py: the per-read filter of the count algorithm (nested function)."""
+"""cnvlib/coverage.py: the per-read filter of the count algorithm (nested function) and the scalar
+tail of region_depth_count
+
+    depth = bases / (end - start) if end > start else 0
+    row = (chrom, start, end, gene, math.log(depth, 2) if depth else NULL_LOG2_COVERAGE, depth)
+    return count, row
+
+translated as a fragment of the function: the `depth = ...` statement, with the results (depth, <5th
+element of the row tuple>).  `bases` (accumulated by the loop over the fetched reads) and the value of
+`math.log(depth, 2)` (the logarithm oracle) are opaque inputs; NULL_LOG2_COVERAGE is the module constant
+(instantiated with Gen/Params.v in the theorem).  The translator has no tuple-valued assignments, so
+the 5th element of `row` is located here with Python's `ast` (fail-closed) and handed over as source
+text; the same walk checks what the translator does not see: count / bases start at 0 and are only
+accumulated inside the single loop, the row tuple is (chrom, start, end, gene, <log2>, depth) and the
+function returns (count, row).  If any of this no longer holds the fragment is made unfindable and the
+translator refuses (a broken tie for C09)."""
+import ast, os, sys
+
+
+def _repo():
+    for name in ('py2v_fn', '__main__'):
+        m = sys.modules.get(name)
+        if m is not None and hasattr(m, 'REPO') and hasattr(m, 'FnTranslator'):
+            return m.REPO
+    return os.environ.get('CNVKIT_REPO', '/repo')
+
+
+def _log2_element(repo):
+    """source of the 5th element of region_depth_count's row tuple, after checking the shape of the function"""
+    src = open(os.path.join(repo, 'cnvlib/coverage.py')).read()
+    fn = None
+    for n in ast.walk(ast.parse(src)):
+        if isinstance(n, ast.FunctionDef) and n.name == 'region_depth_count':
+            fn = n
+            break
+    if fn is None:
+        raise ValueError('no region_depth_count')
+    loops = [i for i, s in enumerate(fn.body) if isinstance(s, (ast.For, ast.While))]
+    if len(loops) != 1:
+        raise ValueError('expected exactly one loop in region_depth_count')
+    head, loop, tail = fn.body[:loops[0]], fn.body[loops[0]], fn.body[loops[0] + 1:]
+    inits = {}
+    for s in head:
+        if isinstance(s, ast.Expr) and isinstance(s.value, ast.Constant) and isinstance(s.value.value, str):
+            continue
+        if isinstance(s, ast.FunctionDef):
+            continue
+        if isinstance(s, ast.Assign) and len(s.targets) == 1 and isinstance(s.targets[0], ast.Name) \
+                and isinstance(s.value, ast.Constant):
+            inits[s.targets[0].id] = s.value.value
+            continue
+        raise ValueError('unexpected statement before the loop: %s' % ast.unparse(s))
+    if inits != {'count': 0, 'bases': 0}:
+        raise ValueError('count/bases are not initialised to 0: %r' % (inits,))
+    for n in ast.walk(loop):
+        if isinstance(n, ast.Assign):
+            raise ValueError('plain assignment inside the loop: %s' % ast.unparse(n))
+        if isinstance(n, ast.AugAssign) and not (isinstance(n.op, ast.Add) and isinstance(n.target, ast.Name)
+                                                 and n.target.id in ('count', 'bases')):
+            raise ValueError('unexpected update inside the loop: %s' % ast.unparse(n))
+    if len(tail) != 3:
+        raise ValueError('the tail of region_depth_count has %d statements' % len(tail))
+    d, r, ret = tail
+    if not (isinstance(d, ast.Assign) and len(d.targets) == 1 and ast.unparse(d.targets[0]) == 'depth'):
+        raise ValueError('first tail statement is not `depth = ...`')
+    if {n.id for n in ast.walk(d.value) if isinstance(n, ast.Name)} != {'bases', 'start', 'end'}:
+        raise ValueError('depth does not depend on exactly bases, start, end')
+    if not (isinstance(r, ast.Assign) and ast.unparse(r.targets[0]) == 'row' and isinstance(r.value, ast.Tuple)
+            and len(r.value.elts) == 6):
+        raise ValueError('second tail statement is not `row = (6-tuple)`')
+    e = r.value.elts
+    if [ast.unparse(x) for x in e[:4]] + [ast.unparse(e[5])] != ['chrom', 'start', 'end', 'gene', 'depth']:
+        raise ValueError('row tuple is %s' % ast.unparse(r.value))
+    if not (isinstance(ret, ast.Return) and ast.unparse(ret.value) == '(count, row)'):
+        raise ValueError('return value is %s' % ast.unparse(ret))
+    # every use of math in the element must be the call math.log(depth, 2): the opaque oracle input
+    elt = ast.unparse(e[4])
+    if 'math' in elt.replace('math.log(depth, 2)', ''):
+        raise ValueError('log2 element is %s' % elt)
+    if {n.id for n in ast.walk(e[4]) if isinstance(n, ast.Name)} - {'math', 'depth', 'NULL_LOG2_COVERAGE'}:
+        raise ValueError('log2 element reads other names: %s' % elt)
+    return elt
+
+
+def _tail_spec():
+    try:
+        elt, first = _log2_element(_repo()), 'depth = '
+    except Exception as exc:   # noqa  -- fail closed: the fragment below cannot be found, the translator refuses
+        elt, first = 'depth', '<region_depth_count no longer has the expected shape: %s>' % exc
+    return dict(name='region_depth_count', coq='fn_region_tail',
+                py_params=['bamfile', 'chrom', 'start', 'end', 'gene', 'min_mapq'],
+                params=[('bases', 'Z'), ('start', 'Z'), ('end', 'Z', 'end_'),
+                        ('math.log(depth, 2)', 'Q', 'log2_depth'), ('NULL_LOG2_COVERAGE', 'Q')],
+                fragment={'first': first, 'last': first}, returns=['depth', elt], ret=['Q', 'Q'])
+
+
 MODULES = {
     'FnCoverage': ('cnvlib/coverage.py', [
         dict(name='region_depth_count.filter_read', coq='fn_filter_read', py_params=['read'], closure=['min_mapq'],
              params=[('read.is_duplicate', 'B'), ('read.is_secondary', 'B'), ('read.is_unmapped', 'B'),
                      ('read.is_qcfail', 'B'), ('read.mapq', 'Z'), ('min_mapq', 'Z')], ret='B'),
+        _tail_spec(),
     ]),
 }
